@@ -54,7 +54,7 @@ CHECKER = 'lake build KatdalModel.Props.C09 kd_c09 && lake env lean <#print axio
 SPEC_FORCE = (500, 502, 503, 504)       # the property text names these as transient
 BUCKET = 'bucket'
 STALL_RT = 0.5                          # read timeout used when a stall is scripted
-SAFE_RT = 8.0                           # read timeout when no stall is scripted (never expected to fire)
+SAFE_RT = 40.0                          # read timeout when no stall is scripted (never expected to fire)
 
 ARRAYS = [
     np.arange(10, dtype=np.int32),
